@@ -135,7 +135,7 @@ def extract_model(text, getvals, timeout_s=20):
     return out
 
 
-def race(text, timeout_s, stagger=2.0):
+def race(text, timeout_s, stagger=0.7):
     """z3 5.1 first; if it has not answered after `stagger` seconds the z3 4.8.12 CLI is started alongside on
     the same query; the first definite answer (sat/unsat) wins and the other process is killed"""
     fd, path = tempfile.mkstemp(suffix=".smt2", prefix="vc_")
